@@ -1,9 +1,130 @@
 import Lean.Data.Json
+import PydjinniModel.Lang.CLex
+import PydjinniModel.Gen.Comment
 /-! Driver handlers for property C12: `handle op request` answers one JSON request. -/
 namespace Pydjinni.Drv.C12
-open Lean
+open Lean Pydjinni.Lang.CLex Pydjinni.Gen.Comment
 
-def handle (op : String) (_req : Json) : Except String Json :=
-  throw s!"unknown op {op}"
+def tokJ : Tok → Json
+  | .ch c => Json.str ("c" ++ String.singleton c)
+  | .comment => Json.str "comment"
+  | .str b => Json.str (if b then "str!" else "str")
+  | .chr b => Json.str (if b then "chr!" else "chr")
+  | .err => Json.str "err"
+
+def toksJ (l : List Tok) : Json := Json.arr (l.map tokJ).toArray
+def strJ (l : List Char) : Json := Json.str (String.ofList l)
+
+def getStyle (req : Json) : Except String Style := do
+  match ← req.getObjValAs? String "style" with
+  | "block" => pure blockStyle
+  | "line" => pure lineStyle
+  | s => throw s!"unknown style {s}"
+
+def getChars (req : Json) (k : String) : Except String (List Char) := do
+  pure (← req.getObjValAs? String k).toList
+
+def getDep (req : Json) : Except String Dep := do
+  match ← req.getObjVal? "dep" with
+  | .bool false => pure .no
+  | .bool true => pure .yes
+  | .str m => pure (.msg m.toList)
+  | _ => throw "dep: expected bool or string"
+
+def lexLang (lang : String) (cs : List Char) : Except String (Option (List Tok)) :=
+  match lang with
+  | "c" => pure (some (lexC cs))
+  | "java" => pure (lexJava cs)
+  | l => throw s!"unknown lang {l}"
+
+def isWsTok : Tok → Bool
+  | .ch c => c == ' ' || c == '\n' || c == '\t'
+  | _ => false
+
+/-- does `mid` consist of comment tokens and white space only, with at least one comment? -/
+def onlyComments (mid : List Tok) : Bool := mid.all (fun t => t == .comment || isWsTok t) && mid.contains .comment
+
+/-- specification of a comment on the implementation's output `out`: between the probe texts `pre` and `suf`
+    it lexes to comments (and white space) only, and the probes lex as they do on their own -/
+def specComment (lang : String) (pre out suf : List Char) : Except String Json := do
+  let whole ← lexLang lang (pre ++ out ++ suf)
+  let lp ← lexLang lang pre
+  let ls ← lexLang lang suf
+  match whole, lp, ls with
+  | some w, some lp, some ls =>
+    let ok := lp.isPrefixOf w && ls.isSuffixOf w && lp.length + ls.length ≤ w.length &&
+      onlyComments ((w.drop lp.length).take (w.length - lp.length - ls.length))
+    pure (Json.mkObj [("holds", ok), ("tokens", toksJ (w.take 400))])
+  | none, _, _ => pure (Json.mkObj [("holds", false), ("tokens", Json.arr #["illegal-unicode-escape"])])
+  | _, _, _ => throw "probe text does not lex"
+
+def depHeadTail (target : String) : Except String (List Char × List Char × List Char) :=
+  match target with
+  | "cpp" => pure (cppDepHead, cppDepTail, [])
+  | "objc" => pure (objcDepHead, [], objcDepBare)
+  | "cppcli" => pure (cliDepHead, [']'], [])
+  | t => throw s!"unknown target {t}"
+
+/-- specification of a deprecation attribute on the implementation's output: the fixed head, then `(`, exactly one
+    well-formed string token, `)`, the fixed tail; and the literal decodes to the message -/
+def specDeprecated (target : String) (d : Dep) (out pre post : List Char) : Except String Json := do
+  let (head, tail, bare) ← depHeadTail target
+  let toks := lexC out
+  let expect : List Tok :=
+    match d with
+    | .msg _ => lexC (pre ++ head ++ ['(']) ++ [.str false] ++ lexC (')' :: (tail ++ post))
+    | .yes => lexC (pre ++ (if bare = [] then head ++ tail else bare) ++ post)
+    | .no => if target == "cppcli" then lexC (pre ++ head ++ tail ++ post) else []
+  let shape := match d, target with
+    | .msg m, "cpp" => if m.isEmpty then toks == [] else toks == expect
+    | _, _ => toks == expect
+  -- decoding: strip pre ++ head ++ `("` and `")` ++ tail ++ post
+  let decoded : Bool := match d with
+    | .msg m =>
+      if target == "cpp" && m.isEmpty then true else
+      let hl := (pre ++ head).length + 2
+      let tl := (tail ++ post).length + 2
+      let body := (out.drop hl).take (out.length - hl - tl)
+      unescape body == some m
+    | _ => true
+  -- the attribute lists pass through Jinja's `indent`: the attribute has to be a single line for it
+  let oneLine := jinjaIndent 4 out == out
+  pure (Json.mkObj [("holds", shape && decoded && oneLine), ("shape", shape), ("decoded", decoded), ("one_line", oneLine),
+    ("tokens", toksJ (toks.take 200))])
+
+def handle (op : String) (req : Json) : Except String Json :=
+  match op with
+  | "c12.filter" => do
+    let st ← getStyle req
+    let text ← getChars req "text"
+    let ind := (req.getObjValAs? Nat "indent").toOption
+    let out := match ind with
+      | some w => commentBlock st w (cfLines text)
+      | none => commentFilter st text
+    pure (Json.mkObj [("out", strJ out), ("lines", Json.arr ((cfLines text).map strJ).toArray)])
+  | "c12.indent" => do
+    let w ← req.getObjValAs? Nat "w"
+    pure (Json.mkObj [("out", strJ (jinjaIndent w (← getChars req "text")))])
+  | "c12.splitlines" => do
+    pure (Json.mkObj [("out", Json.arr ((splitLines (← getChars req "text")).map strJ).toArray)])
+  | "c12.deprecated" => do
+    let d ← getDep req
+    let out ← match ← req.getObjValAs? String "target" with
+      | "cpp" => pure (deprecatedCpp d (← getChars req "pre") (← getChars req "post"))
+      | "objc" => pure (deprecatedObjc d)
+      | "cppcli" => pure (deprecatedCppCli d)
+      | t => throw s!"unknown target {t}"
+    pure (Json.mkObj [("out", strJ out)])
+  | "c12.lex" => do
+    match ← lexLang (← req.getObjValAs? String "lang") (← getChars req "text") with
+    | some t => pure (Json.mkObj [("tokens", toksJ t)])
+    | none => pure (Json.mkObj [("tokens", Json.null)])
+  | "c12.spec.comment" => do
+    specComment (← req.getObjValAs? String "lang") (← getChars req "pre") (← getChars req "out") (← getChars req "suf")
+  | "c12.spec.deprecated" => do
+    let pre := ((req.getObjValAs? String "pre").toOption.getD "").toList
+    let post := ((req.getObjValAs? String "post").toOption.getD "").toList
+    specDeprecated (← req.getObjValAs? String "target") (← getDep req) (← getChars req "out") pre post
+  | _ => throw s!"unknown op {op}"
 
 end Pydjinni.Drv.C12
